@@ -802,6 +802,68 @@ Section Facts.
           destruct (body (fname f) args) as [r0|e]; [|now injection H as <- _].
           injection H as <- _. cbn. rewrite upd_other by assumption. destruct (the_key f ra); exact H1.
       Qed.
+
+      (* ---------------------------------------------------------------- 8. no re-execution of a resident entry *)
+      Section NoReexec.
+        Variable f0 : pfunc.
+        Hypothesis Hf0 : In f0 p.
+        Variable k0 : ckey.
+        (* the key that a request for an output of f0 computes in this call *)
+        Hypothesis Hkey : forall o ra, In o (outs f0) -> root_args p o = Ok ra -> the_key f0 ra = Some k0.
+        (* the policy never evicts (SimpleCache, DiskCache without max_size) *)
+        Hypothesis STABLE : forall c k k' v, cmem P c k = true ->
+          cmem P (cput P c k' v) k = true /\ cmem P (snd (cget P c k')) k = true.
+
+        Definition quiet (st : @xstate C) : Prop :=
+          cmem P (xc st) k0 = true /\ forall c, In c (xlog st) -> fst c <> fname f0.
+        Definition quiet_at (n : nat) : Prop := forall st o st' r, quiet st -> RUN n st o = (st', r) -> quiet st'.
+
+        Lemma quiet_args n f : quiet_at n -> forall ps st acc st' r,
+          quiet st -> ARGS (RUN n) f ps st acc = (st', r) -> quiet st'.
+        Proof.
+          intros IH. induction ps as [|[cur orig] t IHt]; intros st acc st' r Hq H.
+          - cbn in H. now injection H as <- _.
+          - rewrite cget_args_cons in H. destruct (cresolve p kw (RUN n) f st cur) as [st1 rv] eqn:Er.
+            assert (H1 : quiet st1).
+            { unfold cresolve in Er. destruct (aget (bound f) cur); [now injection Er as <- _|].
+              destruct (aget kw cur); [now injection Er as <- _|]. destruct (is_output p cur); [now apply (IH st cur st1 rv)|].
+              destruct (pdefault p cur); now injection Er as <- _. }
+            destruct rv as [v|e]; [|now injection H as <- _]. now apply (IHt (x_use st1 cur) _ st' r H1 H).
+        Qed.
+
+        Lemma quiet_all : forall n, quiet_at n.
+        Proof.
+          induction n as [|n IH]; intros st o st' r Hq H; [cbn in H; now injection H as <- _|].
+          rewrite crun_out_S in H. destruct (aget (xres st) o); [now injection H as <- _|].
+          destruct (producer p o) as [f|] eqn:Hf; [|now injection H as <- _].
+          destruct (root_args p o) as [ra|e] eqn:Hra; [|now injection H as <- _].
+          apply producer_In in Hf as Hf'. destruct Hf' as [Hfp Ho].
+          unfold run_func in H. destruct (found_of st (the_key f ra)) as [[ov c1]|] eqn:Efound.
+          - unfold found_of in Efound. destruct (the_key f ra) as [k|]; [|discriminate].
+            destruct (cmem P (xc st) k); [|discriminate]. injection Efound as Eg.
+            assert (Hq0 : quiet (x_c st c1)).
+            { destruct Hq as [Hm Hl]. split; [|exact Hl]. cbn.
+              pose proof (proj2 (STABLE (xc st) k0 k [] Hm)) as Hs. rewrite Eg in Hs. exact Hs. }
+            unfold hit_branch in H. destruct (hit_value f ov) as [r0|e]; [|now injection H as <- _].
+            destruct (negb full); [now injection H as <- _|]. cbn zeta in H.
+            destruct (ARGS (RUN n) f (params f) _ []) as [st2 ra2] eqn:Ea.
+            assert (H2 : quiet st2).
+            { apply (quiet_args n f IH _ _ _ _ _ (Hq0 : quiet (x_res (x_c st c1) (update_all_results pick f r0 (xres (x_c st c1))))) Ea). }
+            destruct ra2; now injection H as <- _.
+          - assert (Hne : f <> f0).
+            { intros ->. unfold found_of in Efound. rewrite (Hkey o ra Ho Hra) in Efound.
+              destruct Hq as [Hm _]. rewrite Hm in Efound. discriminate. }
+            unfold miss_branch in H. destruct (ARGS (RUN n) f (params f) st []) as [st1 ra1] eqn:Ea.
+            assert (H1 : quiet st1) by (apply (quiet_args n f IH _ _ _ _ _ Hq Ea)).
+            destruct ra1 as [args|e]; [|now injection H as <- _].
+            assert (H2 : quiet (x_log st1 (fname f, args))).
+            { destruct H1 as [Hm Hl]. split; [exact Hm|]. cbn. intros c Hc. apply in_app_iff in Hc as [Hc|[<-|[]]]; [now apply Hl|].
+              cbn. intros E. apply Hne. exact (fname_inj p f f0 (wf_fnames p WF) Hfp Hf0 E). }
+            destruct (body (fname f) args) as [r0|e]; [|now injection H as <- _].
+            injection H as <- _. destruct (the_key f ra) as [k|]; [|exact H2].
+            destruct H2 as [Hm Hl]. split; [|exact Hl]. cbn. exact (proj1 (STABLE _ k0 k r0 Hm)).
+        Qed.
+      End NoReexec.
     End OnCall.
 
     (* ---------------------------------------------------------------- 6b. the cached run simulates the uncached run
@@ -1014,6 +1076,86 @@ Section Facts.
           destruct full; cbn; [|reflexivity]. intros n. symmetry. apply Hres. intros [].
       Qed.
     End Twin.
+
+    (* a repeated call does not re-execute a cached function whose entry is resident (policies that never evict) *)
+    Theorem no_reexec_resident kw full c o f0 k0 r lg c' :
+      In f0 p ->
+      (forall o' ra, In o' (outs f0) -> root_args p o' = Ok ra -> the_key kw true f0 ra = Some k0) ->
+      (forall c k k' v, cmem P c k = true -> cmem P (cput P c k' v) k = true /\ cmem P (snd (cget P c k')) k = true) ->
+      cmem P c k0 = true ->
+      crun body pick P false true p c o kw full = (r, lg, c') ->
+      (forall call, In call lg -> fst call <> fname f0) /\ cmem P c' k0 = true.
+    Proof.
+      intros Hf0 Hkey STABLE Hm H. unfold crun in H.
+      destruct (negb (is_node p o)); [injection H as _ <- <-; split; [intros call []|exact Hm]|].
+      destruct (ahas kw o); [injection H as _ <- <-; split; [intros call []|exact Hm]|].
+      destruct (crun_out body pick P false true p kw full (S (length p)) (cinit kw c) o) as [st r0] eqn:Er.
+      assert (Hq0 : quiet f0 k0 (cinit kw c)) by (split; [exact Hm | intros call []]).
+      destruct (quiet_all kw full true f0 Hf0 k0 Hkey STABLE (S (length p)) _ _ _ _ Hq0 Er) as [Hm' Hl].
+      destruct r0 as [v|e]; [|injection H as _ <- <-; now split].
+      destruct (negb (xhit st) && _); injection H as _ <- <-; now split.
+    Qed.
+
+    (* ---------------------------------------------------------------- 9. the map path *)
+    Lemma aget_In_iff l k v : NoDup (akeys l) -> (aget l k = Some v <-> In (k, v) l).
+    Proof.
+      intros Hnd. split; [apply aget_In|]. induction l as [|[k1 v1] l IH]; intros Hi; [destruct Hi|].
+      cbn in Hnd. inversion Hnd as [|? ? Hn Hd]; subst. cbn. destruct Hi as [E|Hi].
+      - injection E as -> ->. now rewrite str_eqb_refl.
+      - destruct (str_eqb k k1) eqn:E; [|now apply IH]. apply str_eqb_eq in E. subst. exfalso. apply Hn.
+        unfold akeys. apply in_map_iff. now exists (k1, v).
+    Qed.
+
+    Lemma aget_perm l l' k : Permutation l l' -> NoDup (akeys l) -> aget l k = aget l' k.
+    Proof.
+      intros Hp Hnd. assert (Hnd' : NoDup (akeys l')) by (unfold akeys; eapply Permutation_NoDup; [apply Permutation_map; exact Hp | exact Hnd]).
+      destruct (aget l k) as [v|] eqn:E.
+      - symmetry. apply aget_In_iff; [exact Hnd'|]. eapply Permutation_in; [exact Hp|]. now apply aget_In_iff.
+      - destruct (aget l' k) as [v|] eqn:E'; [|reflexivity]. apply aget_In_iff in E'; [|exact Hnd'].
+        apply (Permutation_in _ (Permutation_sym Hp)) in E'. apply aget_In_iff in E'; [congruence | exact Hnd].
+    Qed.
+
+    Lemma call_args_sorted f kws kws' : NoDup (akeys kws) -> NoDup (akeys kws') ->
+      sort_by_key kws' = sort_by_key kws -> call_args f kws' = call_args f kws.
+    Proof.
+      intros H1 H2 E. unfold call_args. apply flat_map_ext. intros [cur orig]. cbn [fst snd].
+      assert (Ha : aget kws' cur = aget kws cur).
+      { rewrite (aget_perm kws' (sort_by_key kws') cur (Permutation_sym (sort_perm _ _)) H2).
+        rewrite E. symmetry. apply aget_perm; [apply Permutation_sym, sort_perm | exact H1]. }
+      now rewrite Ha.
+    Qed.
+
+    (* _get_or_set_cache returns what the user function returns, whatever the policy evicted *)
+    Lemma get_or_set_ok f kws c r c' ex : In f p -> NoDup (akeys kws) -> cache_inv c ->
+      get_or_set body P f kws c = (r, c', ex) -> r = body (fname f) (call_args f kws) /\ cache_inv c'.
+    Proof.
+      intros Hf Hnd Hc H. unfold get_or_set in H.
+      destruct (cmem P c (KMap (outs f) (sort_by_key kws))) eqn:Em.
+      - destruct (cget P c (KMap (outs f) (sort_by_key kws))) as [ov c1] eqn:Eg.
+        destruct (cache_inv_hit c _ Hc Em) as [v [Hv He]]. rewrite Eg in Hv. cbn in Hv. subst ov.
+        injection H as <- <- _. pose proof (cache_inv_get c (KMap (outs f) (sort_by_key kws)) Hc) as Hc1.
+        rewrite Eg in Hc1. split; [|exact Hc1].
+        destruct He as [f' [kws' [Hf' [Ho [Hnd' [Es Hb]]]]]].
+        rewrite (same_outs_eq p f' f WF Hf' Hf Ho) in Hb. now rewrite <- (call_args_sorted f kws kws' Hnd Hnd' Es).
+      - destruct (body (fname f) (call_args f kws)) as [v|e] eqn:Eb.
+        + injection H as <- <- _. split; [reflexivity|]. apply cache_inv_put; [exact Hc|].
+          exists f, kws. repeat split; try assumption; reflexivity.
+        + injection H as <- <- _. split; [reflexivity | exact Hc].
+    Qed.
+
+    Theorem map_calls_transparent : forall calls c,
+      (forall f kws, In (f, kws) calls -> In f p /\ NoDup (akeys kws)) -> cache_inv c ->
+      fst (map_calls body P calls c) = map (fun fk => body (fname (fst fk)) (call_args (fst fk) (snd fk))) calls
+      /\ cache_inv (snd (map_calls body P calls c)).
+    Proof.
+      induction calls as [|[f kws] t IH]; intros c Hall Hc; [split; [reflexivity | exact Hc]|].
+      cbn [map_calls]. destruct (get_or_set body P f kws c) as [[r c1] ex] eqn:Eg.
+      destruct (Hall f kws (or_introl eq_refl)) as [Hf Hnd].
+      destruct (get_or_set_ok f kws c r c1 ex Hf Hnd Hc Eg) as [-> Hc1].
+      destruct (map_calls body P t c1) as [rs c2] eqn:Em.
+      destruct (IH c1 (fun g k H => Hall g k (or_intror H)) Hc1) as [E1 E2]. rewrite Em in E1, E2. cbn in *.
+      split; [now rewrite E1 | exact E2].
+    Qed.
 
   End OnPipeline.
 
